@@ -30,7 +30,7 @@ from ..cfg import explore
 from ..rules import node_calls, event_facts, settle_sites
 from ..mutate import mutate, remove_stmts, replace_expr, replace_stmt, parse_stmt, parse_expr
 from ..model import AnalysisError
-from ..x_guardflow import ClassEffects, guard_facts, has, expand_expr, missing_effect
+from ..x_guardflow import ClassEffects, guard_facts, has, expand_expr, missing_effect, edge_facts, as_aug
 
 TECHNIQUE = "reachability/dominance on the CFG, paired-update lint, finite-domain folding of the overflow and resolve predicates, FIFO-operation table"
 EXPLANATION = (
@@ -84,7 +84,7 @@ def _not_followed(fi, start, end, cfg=None) -> Set[int]:
 
 
 def _is_aug(n, path, op=ast.Add):
-    return n.kind == "stmt" and isinstance(n.ast, ast.AugAssign) and isinstance(n.ast.op, op) and q.dotted(n.ast.target) == path
+    return n.kind == "stmt" and isinstance(as_aug(n.ast), ast.AugAssign) and isinstance(as_aug(n.ast).op, op) and q.dotted(as_aug(n.ast).target) == path
 
 
 # ---------------------------------------------------------------------------
@@ -102,7 +102,8 @@ def write(ck):
     mk = cfg.stmt_nodes(lambda n: n.kind == "stmt" and isinstance(n.ast, (ast.Assign, ast.AnnAssign)) and isinstance(n.ast.value, ast.Call) and q.call_attr(n.ast.value) in ("Future", "_create_future"))
     ck.floor("C12.index-pair", len(appends), 1, "_write_buffer.append in write")
     ck.floor("C12.future-fifo", len(futs), 1, "_write_futures.append in write")
-    muts = appends + idx + futs + mk + cfg.stmt_nodes(lambda n: n.kind == "stmt" and any(q.is_call(c, "self._handle_write", "self._add_io_state") for c in q.calls(n.ast)))
+    # creating the (local) Future object is not a side effect on the stream; queueing it is
+    muts = appends + idx + futs + cfg.stmt_nodes(lambda n: n.kind == "stmt" and any(q.is_call(c, "self._handle_write", "self._add_io_state") for c in q.calls(n.ast)))
     reach = _reach(cfg, {m.id for m in muts})
     for r in raises:
         ck.ob("C12.refuse-before-mutate", fi, r.ast, r.id not in reach, "the refusal cannot be reached after the write buffer, the indices or the future queue were touched (refused without side effects)")
@@ -146,11 +147,19 @@ def write(ck):
             from ..cfg import canon_fact
 
             atoms.add(canon_fact(c, True)[0])
-    seen = explore(cfg, 0, lambda n, v: v, lambda text: text in atoms)
+    gfw0 = guard_facts(fi, ClassEffects(ck.repo, FAMILY))
+
+    def edge_atoms(n, kind, val):
+        for t_, _p in edge_facts(n, kind, gfw0):
+            if t_ in atoms:
+                return True
+        return val
+
+    seen = explore(cfg, False, lambda n, v: v, lambda text: False, edge_transfer=edge_atoms)
     for a in appends:
         states = seen.get(a.id, set())
         ck.need(states, "append node unreachable in write")
-        ok = all(any(txt in atoms for (txt, _p) in f) for f, _v in states)
+        ok = all(v for _f, v in states)
         ck.ob("C12.refuse-before-mutate", fi, a.ast, ok, "on every path the overflow test was evaluated (and failed) before data is appended to the write buffer")
     # memoryview: cast to bytes before any length is taken
     casts = cfg.stmt_nodes(lambda n: n.kind == "stmt" and isinstance(n.ast, ast.Assign) and q.assigned_paths(n.ast) == {data} and any(q.call_attr(c) == "cast" and c.args and q.is_const(c.args[0], "B") for c in q.calls(n.ast)))
@@ -165,8 +174,7 @@ def write(ck):
         return (tested, ismv, True) if n.id in cid else val
 
     def edge(n, kind, val):
-        if n.kind == "test" and kind in ("true", "false"):
-            t, pol = _cf(n.ast, kind == "true")
+        for t, pol in edge_facts(n, kind, gfw0):
             if t == mv:
                 return (True, pol, val[2])
         return val
@@ -188,7 +196,7 @@ def write(ck):
     else:
         missing_effect(ck, "C12.index-pair", fi, weff, {"self._total_write_index"}, "write advances _total_write_index", "_total_write_index update in write")
     for i in idx:
-        v = expand_expr(ck.repo, fi, i.ast.value)
+        v = expand_expr(ck.repo, fi, as_aug(i.ast).value)
         ck.ob("C12.index-pair", fi, i.ast, q.is_call(v, "len") and q.dotted(v.args[0]) == data, "_total_write_index grows by len(data)")
     aid = {a.id for a in appends}
     iid = {i.id for i in idx}
@@ -252,7 +260,7 @@ def handle_write(ck):
         c = [c for c in q.calls(a.ast) if q.is_call(c, "self._write_buffer.advance")][0]
         ck.ob("C12.send-pair", fi, a.ast, len(c.args) == 1 and q.dotted(c.args[0]) == nvar, "the buffer advances by exactly the count write_to_fd returned (%s)" % nvar)
     for d in done:
-        ck.ob("C12.send-pair", fi, d.ast, q.dotted(d.ast.value) == nvar, "_total_write_done_index grows by exactly the count write_to_fd returned (%s)" % nvar)
+        ck.ob("C12.send-pair", fi, d.ast, q.dotted(as_aug(d.ast).value) == nvar, "_total_write_done_index grows by exactly the count write_to_fd returned (%s)" % nvar)
     ef = event_facts(
         fi,
         {"sent": lambda n: n in sends, "adv": lambda n: n in adv},
@@ -267,7 +275,7 @@ def handle_write(ck):
     from ..rules import fresh_cfg
 
     pcfg = fresh_cfg(fi)
-    pcfg.drop_exc_edges(lambda n: _is_aug(n, "self._total_write_done_index") and isinstance(n.ast.value, ast.Name))
+    pcfg.drop_exc_edges(lambda n: _is_aug(n, "self._total_write_done_index") and isinstance(as_aug(n.ast).value, ast.Name))
     by_line = {(n.kind, getattr(n.ast, "lineno", None), getattr(n.ast, "col_offset", None)) for n in adv}
     padv = [n for n in pcfg.stmt_nodes() if n.kind == "stmt" and any(n.ast is a.ast for a in adv)]
     pdone = [n for n in pcfg.stmt_nodes() if n.kind == "stmt" and any(n.ast is d.ast for d in done)]
@@ -375,7 +383,7 @@ def stream_buffer(ck):
     else:
         missing_effect(ck, "C12.buffer-size", app, sbeff, {"self._size"}, "append adds to _size", "_size update in append")
     for i in incs:
-        ck.ob("C12.buffer-size", app, i.ast, q.dotted(i.ast.value) == sz or (q.is_call(i.ast.value, "len") and q.dotted(i.ast.value.args[0]) == data), "_size grows by len(data)")
+        ck.ob("C12.buffer-size", app, i.ast, q.dotted(as_aug(i.ast).value) == sz or (q.is_call(as_aug(i.ast).value, "len") and q.dotted(as_aug(i.ast).value.args[0]) == data), "_size grows by len(data)")
     iid = {i.id for i in incs}
 
     def is_store(n):
@@ -386,16 +394,29 @@ def stream_buffer(ck):
         return isinstance(n.ast, ast.AugAssign) and isinstance(n.ast.op, ast.Add) and q.dotted(n.ast.value) == data
 
     def tr(n, val):
-        a, b = val
+        a, b, fs = val
         if n.id in iid:
             a = min(a + 1, 2)
         if is_store(n):
             b = min(b + 1, 2)
-        return (a, b)
+        return (a, b, fs)
 
-    track = lambda t: t.startswith(sz + " >")
-    seen = explore(app.cfg, (0, 0), tr, track, follow_exc=False)
-    states = seen.get(app.cfg.exit.id, set())
+    gfapp = guard_facts(app)
+
+    def edge_sz(n, kind, val):
+        a, b, fs = val
+        for t_, p_ in edge_facts(n, kind, gfapp):
+            try:
+                e_ = ast.parse(t_, mode="eval").body
+            except SyntaxError:
+                continue
+            names_ = {x.id for x in ast.walk(e_) if isinstance(x, ast.Name)} | {q.unparse(x) for x in ast.walk(e_) if isinstance(x, ast.Call)}
+            if sz in names_ and isinstance(e_, ast.Compare):
+                fs = fs | {(t_, p_)}
+        return (a, b, fs)
+
+    seen0 = explore(app.cfg, (0, 0, frozenset()), tr, lambda t: False, edge_transfer=edge_sz, follow_exc=False)
+    states = {(fs, (a, b)) for _f, (a, b, fs) in seen0.get(app.cfg.exit.id, set())}
     ck.need(states, "append has no normal exit")
     def _sizes(f):
         """sizes 0..6 consistent with the tracked branch facts (threshold folded as 4)"""
@@ -436,7 +457,7 @@ def stream_buffer(ck):
     def edge_mv(n, kind, val):
         if n.kind == "test" and kind in ("true", "false"):
             t, pol = _cf(n.ast, kind == "true")
-            if t == mvtest:
+            if t == mvtest or (mvtest, pol) in edge_facts(n, kind, gfapp):
                 return pol
         return val
 
@@ -495,7 +516,7 @@ def stream_buffer(ck):
         missing_effect(ck, "C12.buffer-size", adv, sbeff, {"self._size"}, "advance subtracts from _size", "_size update in advance")
     ef = event_facts(adv, {"touched": lambda n: n.kind == "stmt" and isinstance(n.ast, ast.stmt) and size in q.assigned_paths(n.ast), "checked": lambda n: n.kind == "stmt" and n.ast in asserts}, cond_facts=False)
     for d in decs:
-        ck.ob("C12.buffer-size", adv, d.ast, q.dotted(d.ast.value) == size and not _touched_before(adv, d), "_size shrinks by the requested size (before the loop consumes the variable)")
+        ck.ob("C12.buffer-size", adv, d.ast, q.dotted(as_aug(d.ast).value) == size and not _touched_before(adv, d), "_size shrinks by the requested size (before the loop consumes the variable)")
         ck.ob("C12.buffer-size", adv, d.ast, ("@checked", True) in ef[d.id], "the precondition is asserted before _size is changed")
     did = {d.id for d in decs}
     cnt = {v for _f, v in explore(adv.cfg, 0, lambda n, v: min(v + (1 if n.id in did else 0), 2), lambda t: False, follow_exc=False).get(adv.cfg.exit.id, ())}
@@ -518,9 +539,9 @@ def stream_buffer(ck):
                 blk = a.body if any(p.ast is s for s in a.body) else a.orelse
                 break
         ck.need(blk, "popleft in advance is not inside a branch")
-        red = [s for s in blk if isinstance(s, ast.AugAssign) and isinstance(s.op, ast.Sub) and q.dotted(s.target) == size]
+        red = [s for s in blk if isinstance(as_aug(s), ast.AugAssign) and isinstance(as_aug(s).op, ast.Sub) and q.dotted(as_aug(s).target) == size]
         rst = [s for s in blk if isinstance(s, ast.Assign) and q.assigned_paths(s) == {posv} and q.is_const(s.value, 0)]
-        ok = len(red) == 1 and len(rst) == 1 and blk.index(red[0]) < blk.index(rst[0]) and posv in {x.id for x in ast.walk(red[0].value) if isinstance(x, ast.Name)}
+        ok = len(red) == 1 and len(rst) == 1 and blk.index(red[0]) < blk.index(rst[0]) and posv in {x.id for x in ast.walk(as_aug(red[0]).value) if isinstance(x, ast.Name)}
         ck.ob("C12.buffer-pos", adv, p.ast, ok, "when the head chunk is used up: size -= len(chunk) - pos is computed before pos is reset to 0")
 
     # peek honours the position
